@@ -46,12 +46,12 @@ def configs(tier):
          _cfg(3, 6, maxlast=0, single=0, gap=2, ready=2, bg_last=[2], flush=0, delays=range(1, 49))]
     if tier == "quick":
         return q
-    t = [_cfg(2, 6, maxlast=2, delays=sweep),
+    t = [_cfg(2, 6, maxlast=2, delays=[1, 6, 11, 16]),
          _cfg(2, 6, maxlast=3, others=["out1", "setup", "fin"], flush=0),
          _cfg(2, 6, maxlast=2, gap=3, pace=2, ready=2, bg_last=[1], delays=[1, 7, 19]),
-         _cfg(3, 8, maxlast=2, bg_last=[5], delays=range(1, 41, 3)),
+         _cfg(3, 8, maxlast=1, bg_last=[5], delays=[1, 8, 15]),
          _cfg(3, 8, maxlast=2, gap=2, ready=3, bg_last=[2], flush=0, others=["fin"]),
-         _cfg(4, 10, maxlast=2, bg_last=[7]),
+         _cfg(4, 9, maxlast=1, bg_last=[7]),
          _cfg(4, 9, maxlast=1, ready=2, flush=0, delays=range(1, 41, 2)),
          _cfg(8, 18, bg_last=[15], flush=0),
          _cfg(8, 10, others=["fin"], flush=0, delays=[1, 11]),
